@@ -504,6 +504,17 @@ class _Expr(ast.NodeTransformer):
         if isinstance(n.func, ast.Attribute) and n.func.attr in _BUILTIN_ATTRS:
             n.func._called_builtin_method = True
         self.generic_visit(n)
+        if any(isinstance(a, ast.Starred) and isinstance(a.value, (ast.Tuple, ast.List)) and not any(isinstance(x, ast.Starred) for x in a.value.elts)
+               for a in n.args):
+            # f(*(a, b))  ->  f(a, b)
+            args: list = []
+            for a in n.args:
+                if isinstance(a, ast.Starred) and isinstance(a.value, (ast.Tuple, ast.List)) and not any(isinstance(x, ast.Starred) for x in a.value.elts):
+                    args.extend(a.value.elts)
+                else:
+                    args.append(a)
+            n.args = args
+            self.changed = True
         f = n.func
         # Pair(a, b) for a typing.NamedTuple class  ->  (a, b)    (a named tuple *is* the tuple; only its repr differs)
         fn_ = f.value if isinstance(f, ast.Subscript) else f
@@ -1478,6 +1489,98 @@ def _alias_locals(model, f, node) -> bool:
     node.body = [T().visit(st) for st in node.body if id(st) not in drop]
     return True
 
+def _nested_generators(node) -> bool:
+    """A parameterless generator function defined inside a function and consumed once, by the very next statement:
+
+        def parts():                     _gy1 = []
+            for i in range(n):           for i in range(n):
+                yield f(i)        ->         _gy1.append(f(i))
+        return g(parts())                return g(_gy1)
+
+    The closure reads the enclosing locals at the time it runs, which is the next statement -- nothing can have been rebound; the
+    elements are produced in the same order (what the consumer does between two of them must not matter: it is required to be one of
+    reduce / sum / list / tuple / sorted / min / max / any-free folds over pure operators, i.e. a call whose other arguments hold no
+    call)."""
+    changed = [False]
+    counter = [0]
+
+    def rewrite(block: list) -> list:
+        out: list = []
+        k = 0
+        while k < len(block):
+            st = block[k]
+            for fld in ("body", "orelse", "finalbody"):
+                v = getattr(st, fld, None)
+                if isinstance(v, list) and v and isinstance(v[0], ast.stmt) and not isinstance(st, (ast.FunctionDef, ast.AsyncFunctionDef, ast.ClassDef)):
+                    setattr(st, fld, rewrite(v))
+            if isinstance(st, ast.FunctionDef) and not st.decorator_list and k + 1 < len(block) \
+                    and not (st.args.args or st.args.posonlyargs or st.args.kwonlyargs or st.args.vararg or st.args.kwarg):
+                inner = [n for b in st.body for n in ast.walk(b)]
+                yields = [n for n in inner if isinstance(n, ast.Yield)]
+                bad = any(isinstance(n, (ast.YieldFrom, ast.Return, ast.FunctionDef, ast.Lambda, ast.Nonlocal, ast.Global, ast.Await)) for n in inner)
+                stmt_yields = [n for n in inner if isinstance(n, ast.Expr) and isinstance(n.value, ast.Yield) and n.value.value is not None]
+                nxt = block[k + 1]
+                uses = [n for n in ast.walk(node) if isinstance(n, ast.Name) and n.id == st.name and isinstance(n.ctx, ast.Load)]
+                calls = [n for n in ast.walk(nxt) if isinstance(n, ast.Call) and isinstance(n.func, ast.Name) and n.func.id == st.name and not n.args and not n.keywords]
+                consumer = None
+                for n in ast.walk(nxt):
+                    if isinstance(n, ast.Call) and calls and any(a is calls[0] for a in n.args):
+                        consumer = n
+                ok = yields and not bad and len(stmt_yields) == len(yields) and len(uses) == 1 and len(calls) == 1 and consumer is not None
+                if ok:
+                    fn_ = consumer.func
+                    nm = fn_.id if isinstance(fn_, ast.Name) else fn_.attr if isinstance(fn_, ast.Attribute) else None
+                    others = [a for a in consumer.args if a is not calls[0]] + [kw.value for kw in consumer.keywords]
+                    ok = nm in ("reduce", "sum", "list", "tuple", "sorted", "min", "max") and not any(isinstance(x, (ast.Call, ast.Lambda)) for o in others for x in ast.walk(o))
+                gbody = [b for b in st.body if not (isinstance(b, ast.Expr) and isinstance(b.value, ast.Constant))] if ok else []
+                if ok and len(gbody) == 1 and isinstance(gbody[0], ast.For) and not gbody[0].orelse and len(gbody[0].body) == 1 \
+                        and isinstance(gbody[0].body[0], ast.Expr) and isinstance(gbody[0].body[0].value, ast.Yield):
+                    # `for T in IT: yield E` is the generator expression `(E for T in IT)`
+                    ge = ast.GeneratorExp(elt=gbody[0].body[0].value.value,
+                                          generators=[ast.comprehension(target=gbody[0].target, iter=gbody[0].iter, ifs=[], is_async=0)])
+
+                    class C0(ast.NodeTransformer):
+                        def visit_Call(self, n: ast.Call):
+                            if n is calls[0]:
+                                return ast.copy_location(ge, n)
+                            return self.generic_visit(n)
+                    out.append(C0().visit(nxt))
+                    changed[0] = True
+                    k += 2
+                    continue
+                if ok:
+                    counter[0] += 1
+                    acc = f"_gy{counter[0]}"
+
+                    class Y(ast.NodeTransformer):
+                        def visit_Expr(self, n: ast.Expr):
+                            if isinstance(n.value, ast.Yield):
+                                return ast.copy_location(ast.Expr(value=ast.Call(func=ast.Attribute(value=ast.Name(id=acc, ctx=ast.Load()), attr="append", ctx=ast.Load()),
+                                                                                 args=[n.value.value], keywords=[])), n)
+                            return n
+                    body = [Y().visit(b) for b in st.body if not (isinstance(b, ast.Expr) and isinstance(b.value, ast.Constant))]
+                    out.append(ast.copy_location(ast.Assign(targets=[ast.Name(id=acc, ctx=ast.Store())], value=ast.List(elts=[], ctx=ast.Load())), st))
+                    out.extend(body)
+
+                    class C(ast.NodeTransformer):
+                        def visit_Call(self, n: ast.Call):
+                            if n is calls[0]:
+                                return ast.copy_location(ast.Name(id=acc, ctx=ast.Load()), n)
+                            return self.generic_visit(n)
+                    out.append(C().visit(nxt))
+                    changed[0] = True
+                    k += 2
+                    continue
+            out.append(st)
+            k += 1
+        return out
+
+    node.body = rewrite(node.body)
+    if changed[0]:
+        ast.fix_missing_locations(node)
+    return changed[0]
+
+
 def _while_to_for(node) -> bool:
     """`i = A; while i < B: BODY; i += 1`  ->  `for i in range(A, B): BODY`   (also `i != B` / `B > i`; a count-down `i = A; while i > 0:
     BODY; i -= 1` that never reads i  ->  `for _ in range(A)`), when i is bound nowhere else in the loop, the bound is not changed by the
@@ -1543,13 +1646,24 @@ def _while_to_for(node) -> bool:
                         and isinstance(c_.operand.value, int) else c_.value if isinstance(c_, ast.Constant) and isinstance(c_.value, int) else None
                     # `i = A; while i >= 0: BODY; i -= 1`  ->  `for i in range(A, -1, -1): BODY`
                     descending = (isinstance(t.ops[0], ast.GtE) and cv == 0) or (isinstance(t.ops[0], ast.Gt) and cv == -1)
-                ok = (bound is not None or countdown or descending) and body
+                predec = False
+                first = st.body[0]
+                if step is None and len(st.body) >= 2 and isinstance(first, ast.AugAssign) and isinstance(first.target, ast.Name) and first.target.id == i \
+                        and isinstance(first.op, ast.Sub) and isinstance(first.value, ast.Constant) and first.value.value == 1 \
+                        and isinstance(t, ast.Compare) and len(t.ops) == 1 and isinstance(t.left, ast.Name) and t.left.id == i \
+                        and isinstance(t.comparators[0], ast.Constant) and ((isinstance(t.ops[0], ast.Gt) and t.comparators[0].value == 0)
+                                                                             or (isinstance(t.ops[0], ast.GtE) and t.comparators[0].value == 1)):
+                    # `i = A; while i > 0: i -= 1; BODY`  ->  `for i in range(A - 1, -1, -1): BODY`   (the step comes first, so a
+                    # `continue` in BODY is harmless)
+                    predec = True
+                    body = st.body[1:]
+                ok = (bound is not None or countdown or descending or predec) and body
                 if ok:
                     for b_ in body:
                         for n in ast.walk(b_):
                             if isinstance(n, ast.Name) and n.id == i and isinstance(n.ctx, (ast.Store, ast.Del)):
                                 ok = False
-                            if isinstance(n, ast.Continue):
+                            if isinstance(n, ast.Continue) and not predec:
                                 ok = False
                             if bound is not None and isinstance(n, ast.Name) and isinstance(n.ctx, (ast.Store, ast.Del)) and n.id in names(bound):
                                 ok = False
@@ -1561,9 +1675,10 @@ def _while_to_for(node) -> bool:
                     if countdown:
                         rng = ast.Call(func=ast.Name(id="range", ctx=ast.Load()), args=[init], keywords=[])
                         tgt = ast.Name(id="_", ctx=ast.Store())
-                    elif descending:
+                    elif descending or predec:
                         m1 = ast.UnaryOp(op=ast.USub(), operand=ast.Constant(value=1))
-                        rng = ast.Call(func=ast.Name(id="range", ctx=ast.Load()), args=[init, m1, copy.deepcopy(m1)], keywords=[])
+                        start = ast.BinOp(left=init, op=ast.Sub(), right=ast.Constant(value=1)) if predec else init
+                        rng = ast.Call(func=ast.Name(id="range", ctx=ast.Load()), args=[start, m1, copy.deepcopy(m1)], keywords=[])
                         tgt = ast.Name(id=i, ctx=ast.Store())
                     else:
                         args = [bound] if (isinstance(init, ast.Constant) and init.value == 0) else [init, bound]
@@ -1646,6 +1761,8 @@ def canonicalise(model, f) -> bool:
     if any(isinstance(n, ast.For) and isinstance(n.iter, ast.Call) and isinstance(n.iter.func, ast.Name) and n.iter.func.id == "range" and len(n.iter.args) == 2
            for n in ast.walk(node)):
         named = _offset_ranges(node) or named
+    if any(isinstance(n, (ast.FunctionDef,)) and n is not node for n in ast.walk(node)):
+        named = _nested_generators(node) or named
     if any(isinstance(n, (ast.Name, ast.Attribute)) and (getattr(n, "id", None) == "reduce" or getattr(n, "attr", None) == "reduce") for n in ast.walk(node)):
         named = _reduce_to_loop(node) or named
     # the tables are looked up in the function as it stands now (named constants already written out: `Kind.A` as a key is its number)
